@@ -11,3 +11,8 @@ import "time"
 func VerifResetOrigin() {
 	origin = time.Now().Add(-time.Second)
 }
+
+// VerifAdvance moves the monotonic clock forward by d.
+func VerifAdvance(d time.Duration) {
+	origin = origin.Add(-d)
+}
